@@ -43,6 +43,13 @@ SPECS = {
                         "batch interval is either far shorter (1 ms, with 4 ms between operations) or far longer (1 h) than the run",
                         "a sentinel publisher establishes that the subscription took effect before the first send",
                         "codec / compression / payload size rotate over the enumerated cases (seeded); 'lost' = not delivered within 4 s on loopback"]),
+    "C04": dict(module="Requestor", cfg="MC_Requestor.cfg", sub="reqrep", bin="e2e",
+                trace=("Trace_Requestor", "Trace_Requestor.cfg"), level="model_checking",
+                quick=dict(cap=100, extra=[]),
+                thorough=dict(cap=None, extra=[], repeat=2),
+                assume=["loopback QUIC; the scripted replier speaks the wire protocol directly and echoes request headers like the real replier",
+                        "request timeout 300 ms; 'now' replies are sent within milliseconds, 'late' replies after at least 600 ms",
+                        "calls are issued concurrently on a requestor, its clone and a second requestor stream whose req_ids collide"]),
     "C14": dict(module="Pipeline", cfg="MC_Pipeline.cfg", sub="pipeline", trace=("Trace_Pipeline", "Trace_Pipeline.cfg"),
                 level="exploration",
                 quick=dict(cap=700, extra=[]),
